@@ -82,6 +82,9 @@ def values(tier):
             for has_iter in (True, False):
                 vs.append(['file', has_close, has_iter, content])
         vs.append(['bytesio', content])
+    # a seekable stream that the handler has already read from / positioned (only the rest is the body)
+    vs.append(['bytesio', b'filedata', 2])
+    vs.append(['bytesio', b'filedata', 8])
     return base, vs
 
 
@@ -96,7 +99,7 @@ def programs(tier):
             progs.append(['return', v, st])
     # response objects returned / raised, nesting <= 2
     inner = base + [['gen', [['s', ''], ['s', 'a']]], ['citer', [['b', b'b']]], ['citer2', [['s', 'a'], ['s', 'a']]], ['gen', [['raise']]], ['gen', [['err', 404]]],
-                    ['file', True, False, b'filedata'], ['bytesio', b'filedata']]
+                    ['file', True, False, b'filedata'], ['bytesio', b'filedata'], ['bytesio', b'filedata', 3]]
     for st in STATUSES:
         for v in inner:
             progs.append(['return', ['resp', v, st], None])
@@ -287,7 +290,10 @@ def real_value(om, v, rec):
         cls = {(True, True): FileCloseIter, (True, False): FileClose, (False, True): FileIter, (False, False): FileLike}[(v[1], v[2])]
         return cls(v[3], rec)
     if k == 'bytesio':
-        return CountingBytesIO(v[1], rec)
+        b = CountingBytesIO(v[1], rec)
+        if len(v) > 2:
+            b.seek(v[2])
+        return b
     if k == 'resp':
         return om.HTTPResponse(real_value(om, v[1], rec), v[2])
     if k == 'err':
@@ -339,7 +345,7 @@ def ev(v, status, cfg):
     if k == 'err':
         return errpage(v[1], cfg) + (False,)
     if k in ('file', 'bytesio'):
-        content = v[3] if k == 'file' else v[1]
+        content = v[3] if k == 'file' else v[1][(v[2] if len(v) > 2 else 0):]
         return (status, content, None, (k == 'bytesio' or v[1]) and True)
     items = v[1]
     i = 0
@@ -507,7 +513,7 @@ def judge(om, prog, method, cfg, outcome, file_wrapper):
                 inner = v
                 while inner[0] == 'resp':
                     inner = inner[1]
-                has_output = (inner[0] in ('file', 'bytesio') and (inner[3] if inner[0] == 'file' else inner[1])) or \
+                has_output = (inner[0] in ('file', 'bytesio') and (inner[3] if inner[0] == 'file' else inner[1][(inner[2] if len(inner) > 2 else 0):])) or \
                              (inner[0] in ('citer', 'citer2') and any(it[0] in ('s', 'b') and it[1] for it in inner[1]))
                 if has_output:
                     return ('close', f'close() called {rec["closes"]} times on the handler iterable, expected exactly once'), c, rec
@@ -548,8 +554,10 @@ def run_case(res, om, prog, method, cfg, outcome='found', fw=False):
 
 SEQ_MENU = [('GET', '/ok', None), ('POST', '/body?x=1', b'zz\r\n'), ('POST', '/body?xxxxxxxxxxxxxxxxxxxx=1', b'zz\r\n'),
             ('POST', '/body?big=1', b'5\r\nhello\r\n5\r\nworld\r\n0\r\n\r\n'), ('POST', '/body?looooooooooooooooong=1', b'5\r\nhello\r\n5\r\nworld\r\n0\r\n\r\n'),
-            ('GET', '/missing', None), ('GET', '/crash', None), ('HEAD', '/ok', None), ('POST', '/body?fine=1', b'2\r\nhi\r\n0\r\n\r\n')]
-SEQ_STATUS = [200, 400, 400, 413, 413, 404, 500, 200, 200]
+            ('GET', '/missing', None), ('GET', '/crash', None), ('HEAD', '/ok', None), ('POST', '/body?fine=1', b'2\r\nhi\r\n0\r\n\r\n'),
+            # the error handler itself fails: the last-resort page (its length follows the path)
+            ('GET', '/gone/x', None), ('GET', '/gone/xxxxxxxxxxxxxxxx', None)]
+SEQ_STATUS = [200, 400, 400, 413, 413, 404, 500, 200, 200, 500, 500]
 
 
 def seq_app(om):
@@ -566,6 +574,12 @@ def seq_app(om):
     app.route('/ok', 'GET', ok)
     app.route('/body', 'POST', body)
     app.route('/crash', 'GET', crash)
+
+    @app.error(404)
+    def missing(res):
+        if app.request.path.startswith('/gone'):
+            raise RuntimeError('error handler failed')
+        return app.default_error_handler(res)
     return app
 
 
@@ -576,7 +590,8 @@ def seq_judge(om, seq):
         method, path, body = SEQ_MENU[i]
         p, _, qs = path.partition('?')
         kw = {'body': body, 'chunked': True} if body is not None else {}
-        c = wsgi.call(app, wsgi.environ(method, p, qs=qs, **kw))
+        # the server of the sequence layer edits the header lists it is given (as wsgiref does)
+        c = wsgi.call(app, wsgi.environ(method, p, qs=qs, **kw), server_edits_headers=True)
         probs = wsgi.pep3333_problems(c, method)
         if not probs and c.code != SEQ_STATUS[i]:
             probs = [f'status {c.status}, expected {SEQ_STATUS[i]}']
